@@ -136,16 +136,38 @@ func runCFG(p *Prog) (o cfgOutcome) {
 			o = cfgOutcome{Err: panicCode(v)}
 		}
 	}()
+	// the function is inspected (as an earlier pass would) and then some instructions are replaced in place by
+	// equal copies (as a rewriting pass would): the graph must be built over the nodes the function has NOW
+	_ = fn.Instructions()
+	_ = fn.Labels()
+	for k, nd := range fn.Nodes {
+		if i, ok := nd.(*ir.Instruction); ok && (k*7+len(fn.Nodes))%3 == 0 {
+			fn.Nodes[k] = cloneInstr(i)
+		}
+	}
 	if err := pass.LabelTarget(fn); err != nil {
 		return cfgOutcome{Err: errCode(err)}
 	}
 	if err := pass.CFG(fn); err != nil {
 		return cfgOutcome{Err: errCode(err)}
 	}
-	is := fn.Instructions()
+	// the instruction list is read from the nodes themselves, not through Function.Instructions()
+	var is []*ir.Instruction
+	for _, nd := range fn.Nodes {
+		if i, ok := nd.(*ir.Instruction); ok {
+			is = append(is, i)
+		}
+	}
 	idx := map[*ir.Instruction]int{}
 	for j, i := range is {
 		idx[i] = j
+	}
+	for _, i := range is {
+		for _, x := range append(append([]*ir.Instruction{}, i.Succ...), i.Pred...) {
+			if _, ok := idx[x]; x != nil && !ok {
+				return cfgOutcome{Err: 97} // an edge leads to an instruction that is not a node of the function
+			}
+		}
 	}
 	for _, i := range is {
 		s, pr := []int{}, []int{}
